@@ -183,6 +183,71 @@ def make_payloads(payload):
     return {"payloads": out, "why": why}
 
 
+def cmp_bytes(a, b):
+    """a, b: guarded results of export(); returns a small comparison record."""
+    if a[0] != "ok" or b[0] != "ok":
+        return {"same": a[0] != "ok" and b[0] != "ok" and a[1] == b[1], "a": err(a) if a[0] != "ok" else len(a[1]),
+                "b": err(b) if b[0] != "ok" else len(b[1])}
+    x, y = bytes(a[1]), bytes(b[1])
+    if x == y:
+        return {"same": True, "a": len(x), "b": len(y)}
+    k = next((i for i in range(min(len(x), len(y))) if x[i] != y[i]), min(len(x), len(y)))
+    return {"same": False, "a": len(x), "b": len(y), "first_diff": k}
+
+
+def history(BootableImage, bimg, cfg, d, image, h):
+    """Operation sequences on ONE object, each result compared with a FRESH object configured the same way.
+    h: {"init2": int, "replace": {"label", "cfg_key", "hex"} | None, "clear": label | None}"""
+    rec = {"ops": ["load_from_config(cfg)", "export()"]}
+
+    def fresh(c):
+        r = guarded(lambda: BootableImage.load_from_config(c, search_paths=[d]), 60)
+        if r[0] != "ok":
+            return r
+        return guarded(lambda: r[1].export(), 60)
+
+    first = ("ok", image)
+    rec["ops"].append("export()")
+    rec["second"] = cmp_bytes(guarded(lambda: bimg.export(), 60), first)
+    cur = dict(cfg)
+    if h.get("init2") is not None:
+        def set_io(v):
+            bimg.init_offset = v
+        rec["ops"] += [f"init_offset = {h['init2']}", "export()"]
+        r = guarded(lambda: set_io(h["init2"]), 20)
+        c2 = dict(cur)
+        c2["init_offset"] = h["init2"]
+        if r[0] == "ok":
+            rec["reinit"] = cmp_bytes(guarded(lambda: bimg.export(), 60), fresh(c2))
+        else:
+            f2 = guarded(lambda: BootableImage.load_from_config(c2, search_paths=[d]), 60)
+            rec["reinit"] = {"same": f2[0] != "ok", "a": err(r), "b": "fresh rejected" if f2[0] != "ok" else "fresh accepted"}
+        back = cfg.get("init_offset", 0)
+        rec["ops"] += [f"init_offset = {back}", "export()"]
+        r = guarded(lambda: set_io(back), 20)
+        rec["back"] = cmp_bytes(guarded(lambda: bimg.export(), 60), first) if r[0] == "ok" else {"same": False, "a": err(r), "b": len(image)}
+    rp = h.get("replace")
+    if rp:
+        seg = guarded(lambda: bimg.get_segment(rp["label"]), 20)
+        if seg[0] == "ok":
+            new = bytes.fromhex(rp["hex"])
+            with open(os.path.join(d, rp["cfg_key"] + "_new.bin"), "wb") as f:
+                f.write(new)
+            seg[1].raw_block = new
+            cur = dict(cur)
+            cur[rp["cfg_key"]] = rp["cfg_key"] + "_new.bin"
+            rec["ops"] += [f"get_segment({rp['label']!r}).raw_block = <{len(new)} bytes>", "export()"]
+            rec["replace"] = cmp_bytes(guarded(lambda: bimg.export(), 60), fresh(cur))
+    if h.get("clear"):
+        seg = guarded(lambda: bimg.get_segment(h["clear"]["label"]), 20)
+        if seg[0] == "ok":
+            seg[1].clear()
+            cur = {k: v for k, v in cur.items() if k != h["clear"]["cfg_key"]}
+            rec["ops"] += [f"get_segment({h['clear']['label']!r}).clear()", "export()"]
+            rec["clear"] = cmp_bytes(guarded(lambda: bimg.export(), 60), fresh(cur))
+    return rec
+
+
 def handler(payload):
     import logging
     logging.disable(logging.CRITICAL)
@@ -264,6 +329,12 @@ def handler(payload):
                 continue
             b2 = p[1]
             res["parses"][key] = {"io": b2.init_offset, "mem": b2.mem_type.label, "segs": describe(b2, True)}
+            if case.get("history"):
+                e1 = guarded(lambda: b2.export(), 60)
+                res["parses"][key]["reexport"] = cmp_bytes(e1, ("ok", data))
+                res["parses"][key]["reexport2"] = cmp_bytes(guarded(lambda: b2.export(), 60), e1)
+        if case.get("history"):
+            res["history"] = history(BootableImage, bimg, cfg, d, image, case["history"])
         out.append(res)
         shutil.rmtree(d, ignore_errors=True)
     return {"results": out}
